@@ -294,6 +294,44 @@ func runOne(pc paceCase) result {
 				return wrap(0x86, tok)
 			}
 		}
+		if len(pc.Dev) > 10 && pc.Dev[:10] == "malformed/" && len(genuine) >= 6 && genuine[len(genuine)-2] == 0x90 {
+			// structurally malformed chip message at exchange pc.Bit (1..4)
+			if n != pc.Bit {
+				return nil
+			}
+			body := genuine[:len(genuine)-2]
+			hl := 2
+			if body[1] == 0x81 {
+				hl = 3
+			} else if body[1] == 0x82 {
+				hl = 4
+			}
+			inner := bytes.Clone(body[hl:])
+			wrap7c := func(in []byte) []byte {
+				return append(append(append([]byte{0x7C}, encLen(len(in))...), in...), 0x90, 0x00)
+			}
+			switch pc.Dev[10:] {
+			case "empty-7c":
+				return []byte{0x7C, 0x00, 0x90, 0x00}
+			case "wrong-inner-tag":
+				inner[0] ^= 0x08
+				return wrap7c(inner)
+			case "garbage-object-first":
+				g := []byte{inner[0], 0x03, 0x01, 0x02, 0x03}
+				return wrap7c(append(g, inner...))
+			case "without-7c":
+				return append(inner, 0x90, 0x00)
+			case "no-data":
+				return []byte{0x90, 0x00}
+			case "trailing-byte":
+				return append(append(bytes.Clone(body), 0x00), 0x90, 0x00)
+			case "length-one-too-long":
+				m := bytes.Clone(genuine)
+				m[hl-1]++
+				return m
+			}
+			return nil
+		}
 		if pc.Dev == "" || len(genuine) < 6 || genuine[len(genuine)-2] != 0x90 {
 			return nil
 		}
@@ -617,6 +655,17 @@ hostile:
 			do(sec3, pc, lab+"/"+pc.Dev)
 			pc.Dev = "ka/" + k
 			do(sec3, pc, lab+"/"+pc.Dev)
+		}
+		// structurally malformed chip messages at each of the four GENERAL AUTHENTICATE answers
+		for msg := 1; msg <= 4; msg++ {
+			for _, k := range []string{"empty-7c", "wrong-inner-tag", "garbage-object-first", "without-7c", "no-data", "trailing-byte", "length-one-too-long"} {
+				if !c.Mine() {
+					continue
+				}
+				pc := base
+				pc.Dev, pc.Bit = "malformed/"+k, msg
+				do(sec3, pc, fmt.Sprintf("%s/malformed/%d/%s", lab, msg, k))
+			}
 		}
 		// a device without the password: complete product of its answer options
 		for _, mk := range []string{"echo", "G", "2G"} {
